@@ -115,3 +115,12 @@ pub fn width_specific<F: 'static>(x: f64) -> f64 {
 pub fn sentinel_index(v: &[i32], id: i32) -> i32 {
     v[id as usize]
 }
+
+// ---- degree control: an absolute tolerance on coordinates
+pub struct Pt {
+    pub x: f64,
+    pub y: f64,
+}
+pub fn absolute_tolerance_pt(p: &Pt, q: &Pt) -> bool {
+    (p.x - q.x).abs() < 1e-9 && p.y * q.y > p.x
+}
